@@ -532,6 +532,12 @@ func (in *instr) stmt(s ast.Stmt, label *ast.Ident) ast.Stmt {
 		if in.isSortableMapRange(s) {
 			return in.rangeMap(s, label)
 		}
+		if tv, ok := in.info.Types[s.X]; ok && tv.Type != nil {
+			if m, isMap := tv.Type.Underlying().(*types.Map); isMap && *verbose {
+				pos := in.fset.Position(s.Pos())
+				fmt.Printf("instr: note: map range left in map order at %s:%d (key type %s)\n", in.fname, pos.Line, m.Key().String())
+			}
+		}
 		s.X = in.fixExpr(s.X)
 		in.block(s.Body)
 		in.loopYield(s, s.Body)
@@ -582,25 +588,61 @@ func (in *instr) isChanRange(s *ast.RangeStmt) bool {
 // iteration order unspecified; during a simulated run the keys are visited in sorted order so that one seed
 // is one execution (entries deleted during the loop are skipped, as Go does).
 func (in *instr) isSortableMapRange(s *ast.RangeStmt) bool {
-	if s.Tok != token.DEFINE && (s.Key != nil || s.Value != nil) {
+	return in.mapRangeKind(s) != 0
+}
+
+// plain: a type whose printed form depends on nothing but its value (no pointers, maps, interfaces ...)
+func plain(t types.Type, depth int) bool {
+	if depth > 4 {
 		return false
+	}
+	switch u := t.Underlying().(type) {
+	case *types.Basic:
+		return u.Kind() != types.UnsafePointer && u.Kind() != types.Uintptr
+	case *types.Slice:
+		return plain(u.Elem(), depth+1)
+	case *types.Array:
+		return plain(u.Elem(), depth+1)
+	case *types.Struct:
+		for i := 0; i < u.NumFields(); i++ {
+			if !plain(u.Field(i).Type(), depth+1) {
+				return false
+			}
+		}
+		return true
+	}
+	return false
+}
+
+// mapRangeKind: 0 leave alone, 1 iterate in key order (string / integer keys), 2 iterate in the order of the
+// printed values (keys that cannot be ordered - pointers, interfaces - but plain values)
+func (in *instr) mapRangeKind(s *ast.RangeStmt) int {
+	if s.Tok != token.DEFINE && (s.Key != nil || s.Value != nil) {
+		return 0
 	}
 	tv, ok := in.info.Types[s.X]
 	if !ok || tv.Type == nil {
-		return false
+		return 0
 	}
 	m, isMap := tv.Type.Underlying().(*types.Map)
 	if !isMap {
-		return false
+		return 0
 	}
-	b, isBasic := m.Key().Underlying().(*types.Basic)
-	if !isBasic {
-		return false
+	if b, isBasic := m.Key().Underlying().(*types.Basic); isBasic {
+		if b.Info()&(types.IsString|types.IsInteger) != 0 {
+			return 1
+		}
+		return 0
 	}
-	return b.Info()&(types.IsString|types.IsInteger) != 0
+	// (only for map[any]V: the module's language version does not let an interface type satisfy `comparable`)
+	if it, isIface := m.Key().Underlying().(*types.Interface); isIface && it.Empty() && plain(m.Elem(), 0) {
+		return 2
+	}
+	return 0
 }
 
 func (in *instr) rangeMap(s *ast.RangeStmt, label *ast.Ident) ast.Stmt {
+	keysFn := map[int]string{1: "SortedKeys", 2: "KeysByValue"}[in.mapRangeKind(s)]
 	n := in.next()
 	mv := id("_zm" + n)
 	kv := id("_zk" + n)
@@ -622,7 +664,7 @@ func (in *instr) rangeMap(s *ast.RangeStmt, label *ast.Ident) ast.Stmt {
 		body = append(body, define([]ast.Expr{ki}, kv), assign(blank(1), id(ki.Name)))
 	}
 	body = append(body, s.Body.List...)
-	var loop ast.Stmt = &ast.RangeStmt{Key: id("_"), Value: kv, Tok: token.DEFINE, X: in.zcall("SortedKeys", mv), Body: &ast.BlockStmt{List: body}}
+	var loop ast.Stmt = &ast.RangeStmt{Key: id("_"), Value: kv, Tok: token.DEFINE, X: in.zcall(keysFn, mv), Body: &ast.BlockStmt{List: body}}
 	if label != nil {
 		loop = &ast.LabeledStmt{Label: label, Stmt: loop}
 	}
